@@ -310,6 +310,68 @@ def count_iter(it):
 
 
 # ---------------------------------------------------------------------------------------------------------------
+# local names: a name bound only by an enclosing construct, used inside a further construct that opens a scope
+# ---------------------------------------------------------------------------------------------------------------
+
+def _binders():
+    """name -> fn(v, inner): a construct that binds the single-word name v (unknown to the caller's scope) around `inner`."""
+    B = {}
+    B["for"] = lambda v, t: ["for", [[v, "single", N("a")]], t]
+    B["for-range"] = lambda v, t: ["for", [[v, "range", N("a"), N("b")]], t]
+    B["for2"] = lambda v, t: ["for", [[v, "single", N("a")], ["m", "single", ["+", N(v), N("b")]]], t]
+    B["some"] = lambda v, t: ["some", [[v, N("a")]], t]
+    B["every"] = lambda v, t: ["every", [[v, N("a")], ["m", ["*", N(v), N("b")]]], t]
+    B["fn"] = lambda v, t: ["fn", [[v, None]], t, False]
+    B["fn-typed"] = lambda v, t: ["fn", [["m", ["tb", "number"]], [v, ["tb", "string"]]], t, False]
+    B["ctx"] = lambda v, t: ["ctx", [[v, "name", N("a")], ["r", "name", t]]]
+    B["ctx3"] = lambda v, t: ["ctx", [[v, "name", N("a")], ["m", "name", N("b")], ["r", "name", t]]]
+    return B
+
+
+BINDERS = _binders()
+
+
+def _uses():
+    """name -> fn(x, y): an expression that uses the outer local name x (and the inner one y) next to something a name could go on with."""
+    U = {}
+    for op in fs.BINOPS:
+        U["x" + op + "y"] = lambda x, y, op=op: [op, N(x), N(y)]
+        U["x" + op + "1"] = lambda x, y, op=op: [op, N(x), ["num", "1", "", "plain"]]
+        U["y" + op + "x"] = lambda x, y, op=op: [op, N(y), N(x)]
+    U["between"] = lambda x, y: ["between", N(x), N(y), N("c")]
+    U["between2"] = lambda x, y: ["between", N("c"), N(x), N(y)]
+    U["neg"] = lambda x, y: ["-", ["neg", N(x)], N(y)]
+    U["path"] = lambda x, y: ["+", ["path", N(x), "k"], N(y)]
+    U["filter"] = lambda x, y: ["filter", N(x), ["-", N(y), N(x)]]
+    U["call"] = lambda x, y: ["call", N(x), ["pos", [["+", N(y), N(x)]]]]
+    U["instof"] = lambda x, y: ["instof", N(x), ["tb", "number"]]
+    U["if"] = lambda x, y: ["if", N(x), ["+", N(y), N(x)], ["*", N(x), N(y)]]
+    U["list"] = lambda x, y: ["list", [["-", N(x), N(y)], ["/", N(y), N(x)]]]
+    U["inlist"] = lambda x, y: ["inlist", N(x), [N(y), ["+", N(x), N("c")]]]
+    return U
+
+
+USES = _uses()
+
+
+def local_cases():
+    """outer binder x inner binder x use; the outer name is lx, the inner one ly (neither is known to the caller's scope)."""
+    for bo, fo in BINDERS.items():
+        for bi, fi in BINDERS.items():
+            for u, fu in USES.items():
+                tree = fo("lx", fi("ly", fu("lx", "ly")))
+                c = tree_case(tree, "expression")
+                c["part"] = "locals"
+                c["local"] = [bo, bi, u]
+                yield c
+        for u, fu in USES.items():       # one construct only (control)
+            c = tree_case(fo("lx", fu("lx", "lx")), "expression")
+            c["part"] = "locals"
+            c["local"] = [bo, None, u]
+            yield c
+
+
+# ---------------------------------------------------------------------------------------------------------------
 # random trees
 # ---------------------------------------------------------------------------------------------------------------
 
@@ -317,10 +379,10 @@ def gen_random(src, maxd):
     d = src.int(2, maxd)
     if src.bool(0.1):
         k = src.choice(["exprlist", "neglist"])
-        tree = [k, [fs.gen_tree(src, d - 1) for _ in range(src.int(1, 3))]]
+        tree = [k, [fs.gen_tree(src, d - 1, ()) for _ in range(src.int(1, 3))]]
         entry = "unary"
     else:
-        tree = fs.gen_tree(src, d)
+        tree = fs.gen_tree(src, d, ())
         entry = "expression"
     case = tree_case(tree, entry, src, max_drop=4, subsets=2)
     # one token-preserving fancy layout of the minimal rendering and of one more variant (no known lexer triggers)
@@ -340,9 +402,9 @@ def gen_random(src, maxd):
 def gen_layout(src):
     d = src.int(1, 4)
     if src.bool(0.1):
-        tree, entry = ["exprlist", [fs.gen_tree(src, d) for _ in range(src.int(1, 2))]], "unary"
+        tree, entry = ["exprlist", [fs.gen_tree(src, d, ()) for _ in range(src.int(1, 2))]], "unary"
     else:
-        tree, entry = fs.gen_tree(src, d), "expression"
+        tree, entry = fs.gen_tree(src, d, ()), "expression"
     keep, ok = fs.minimal_parens(tree, entry)
     if not ok:
         raise Inconclusive("reference parser does not read back its own full rendering: %r" % (tree,))
@@ -639,6 +701,7 @@ def setup(ctx):
     ctx.p_cp = ctx.register(Part("codepoints", None, reqs_cp, judge_cp))
     ctx.p_layout = ctx.register(Part("layout", gen_layout, reqs_layout, judge_layout))
     ctx.p_wide = ctx.register(Part("wide", None, reqs_tree, judge_tree))
+    ctx.p_locals = ctx.register(Part("locals", None, reqs_tree, judge_tree))
     if CAL:
         ctx.max_violations = 10 ** 9
 
@@ -648,6 +711,12 @@ def run(ctx):
     ctx.enumerate(ctx.p_pairs, ({"spec": s} for s in pair_specs()), batch=100,
                   name="ordered operator pairs x operand position (%d), all parenthesis subsets" % npairs, exhaustive=True)
     ctx.log("pairs done")
+    if ctx.stop():
+        return
+    nl = count_iter(local_cases())
+    ctx.enumerate(ctx.p_locals, local_cases(), batch=100,
+                  name="names bound only by an enclosing construct: outer binder x inner binder x use (%d), all parenthesis subsets" % nl, exhaustive=True)
+    ctx.log("locals done")
     if ctx.stop():
         return
     if ctx.thorough():
